@@ -39,8 +39,9 @@ package rtsp
 //@   modifies
 //@ extern func (c *buffered.Conn) Flush() (n int, err error)
 //@   requires c != nil
-//@   modifies ghostInt(c, "flushed")
+//@   modifies ghostInt(c, "flushed"), ghostInt(c, "flushes")
 //@   ensures err == nil ==> ghostInt(c, "flushed") == len(out(c))
+//@   ensures ghostInt(c, "flushes") == old(ghostInt(c, "flushes")) + 1
 //@ extern func (c websocket.Conn) Write(p []byte) (n int, err error)
 //@   modifies ghostInt(c, "wsmessages"), out(c)
 //@   ensures ghostInt(c, "wsmessages") == old(ghostInt(c, "wsmessages")) + 1
@@ -55,8 +56,8 @@ package rtsp
 
 // ---- C13: every write to the connection happens inside the write lock, one whole message per critical section ----
 //@ func (s *Session) response(resp *Response) (rerr error)
-//@   requires s != nil && resp != nil && !held(&s.lockW) && (s.wsconn == nil ==> s.conn != nil)
-//@   modifies held(&s.lockW), out(s.conn), ghostInt(s.conn, "flushed"), out(s.wsconn), ghostInt(s.wsconn, "wsmessages")
+//@   requires s != nil && resp != nil && !held(&s.lockW) && (s.wsconn == nil ==> s.conn != nil) && 0 <= ghostInt(s.conn, "flushes") && ghostInt(s.conn, "flushes") < 1<<40 && 0 <= ghostInt(s.wsconn, "wsmessages") && ghostInt(s.wsconn, "wsmessages") < 1<<40
+//@   modifies held(&s.lockW), out(s.conn), ghostInt(s.conn, "flushed"), ghostInt(s.conn, "flushes"), out(s.wsconn), ghostInt(s.wsconn, "wsmessages")
 //@   assert[call:Write] held(&s.lockW)
 //@   assert[call:Flush] held(&s.lockW)
 //@   assert[call:Unlock] s.wsconn != nil ==> ghostInt(s.wsconn, "wsmessages") == old(ghostInt(s.wsconn, "wsmessages")) + 1
@@ -64,6 +65,8 @@ package rtsp
 //@   local err error
 //@   ensures !held(&s.lockW)
 //@   ensures s.wsconn != nil ==> ghostInt(s.wsconn, "wsmessages") == old(ghostInt(s.wsconn, "wsmessages")) + 1
+//@   ensures s.wsconn != nil ==> ghostInt(s.conn, "flushes") == old(ghostInt(s.conn, "flushes"))
+//@   ensures s.wsconn == nil ==> ghostInt(s.wsconn, "wsmessages") == old(ghostInt(s.wsconn, "wsmessages")) && ghostInt(s.conn, "flushes") <= old(ghostInt(s.conn, "flushes")) + 1 && ghostInt(s.conn, "flushes") >= old(ghostInt(s.conn, "flushes")) && (rerr == nil ==> ghostInt(s.conn, "flushes") == old(ghostInt(s.conn, "flushes")) + 1)
 
 //@ import "github.com/cnotch/ipchub/av/format/rtp"
 // closing the consumer detaches it from the stream; it never touches the write lock (assumed)
@@ -96,7 +99,7 @@ package rtsp
 // pull client: requests and responses to the camera are written and flushed inside the write lock
 //@ func (c *PullClient) request(req *Request) (rerr error)
 //@   requires c != nil && req != nil && c.conn != nil && !held(&c.lockW)
-//@   modifies held(&c.lockW), out(c.conn), ghostInt(c.conn, "flushed")
+//@   modifies held(&c.lockW), out(c.conn), ghostInt(c.conn, "flushed"), ghostInt(c.conn, "flushes")
 //@   local err error
 //@   assert[call:Write] held(&c.lockW)
 //@   assert[call:Flush] held(&c.lockW)
@@ -105,9 +108,133 @@ package rtsp
 
 //@ func (c *PullClient) response(resp *Response) (rerr error)
 //@   requires c != nil && resp != nil && c.conn != nil && !held(&c.lockW)
-//@   modifies held(&c.lockW), out(c.conn), ghostInt(c.conn, "flushed")
+//@   modifies held(&c.lockW), out(c.conn), ghostInt(c.conn, "flushed"), ghostInt(c.conn, "flushes")
 //@   local err error
 //@   assert[call:Write] held(&c.lockW)
 //@   assert[call:Flush] held(&c.lockW)
 //@   assert[call:Unlock] err == nil ==> ghostInt(c.conn, "flushed") == len(out(c.conn))
 //@   ensures !held(&c.lockW)
+
+// ---- C12 / C11: RTSP session automaton, one response per request, authorization before delivery/publication ----
+//@ import "github.com/cnotch/ipchub/media"
+//@ import "github.com/cnotch/ipchub/provider/auth"
+// responses sent on this session so far: flushes of the TCP connection + WebSocket messages
+//@ spec func sent(s *Session) int = ghostInt(s.conn, "flushes") + ghostInt(s.wsconn, "wsmessages")
+// what the configuration guide calls "user u may <right> path" (meaning of patterns: property C16)
+//@ spec func permits(u *auth.User, path string, right auth.AccessRight) bool = uninterpreted
+// RFC 2326 A.1 state machine as the statement gives it
+//@ spec func legalRFC(status int, m string) bool = m == MethodOptions || m == MethodTeardown || (status == statusInit && (m == MethodDescribe || m == MethodAnnounce || m == MethodSetup)) || (status == statusReady && (m == MethodSetup || m == MethodPlay || m == MethodRecord)) || (status == statusPlaying && m == MethodPlay) || (status == statusRecording && m == MethodRecord)
+//@ spec func sessOK(s *Session) bool = s != nil && !held(&s.lockW) && (s.wsconn == nil ==> s.conn != nil) && statusInit <= s.status && s.status <= statusRecording && 0 <= ghostInt(s.conn, "flushes") && ghostInt(s.conn, "flushes") < 1<<40 && 0 <= ghostInt(s.wsconn, "wsmessages") && ghostInt(s.wsconn, "wsmessages") < 1<<40
+
+//@ extern func (u *auth.User) ValidatePermission(path string, right auth.AccessRight) (ok bool)
+//@   modifies
+//@   ensures ok == permits(u, path, right)
+//@ extern func (h fmtrtsp.Header) Set(key string, value string) ()
+//@   modifies misc(h)
+//@ extern func (h fmtrtsp.Header) Get(key string) (v string)
+//@   modifies
+//@ extern func media.GetOrCreate(path string) (st *media.Stream)
+//@   modifies
+
+//@ func (s *Session) checkPermission(right auth.AccessRight) (ok bool)
+//@   requires s != nil
+//@   modifies
+//@   ensures ok == (s.authMode == auth.NoneAuth || (s.user != nil && permits(s.user, s.path, right)))
+
+//@ func (s *Session) checkAuth(r *Request) (user *auth.User, err error)
+//@   trusted
+//@   requires s != nil && r != nil
+//@   modifies
+//@ func (s *Session) Close() (err error)
+//@   trusted
+//@   requires s != nil
+//@   modifies s.closed, misc(s), s.status
+//@ func (s *Session) asTCPPusher() ()
+//@   trusted
+//@   requires s != nil && (s.authMode == auth.NoneAuth || (s.user != nil && permits(s.user, s.path, auth.PushRight)))
+//@   modifies s.stream, s.logger, misc(s)
+//@ func (s *Session) asTCPConsumer(stream *media.Stream, resp *Response) (err error)
+//@   trusted
+//@   requires s != nil && stream != nil && resp != nil && !held(&s.lockW) && (s.authMode == auth.NoneAuth || (s.user != nil && permits(s.user, s.path, auth.PullRight)))
+//@   modifies s.consumer, s.logger, misc(s), held(&s.lockW), out(s.conn), ghostInt(s.conn, "flushed"), ghostInt(s.conn, "flushes"), out(s.wsconn), ghostInt(s.wsconn, "wsmessages")
+//@   ensures !held(&s.lockW) && (err == nil ==> sent(s) == old(sent(s)) + 1) && sent(s) <= old(sent(s)) + 1 && sent(s) >= old(sent(s))
+//@ func (s *Session) asUDPConsumer(stream *media.Stream, resp *Response) (err error)
+//@   trusted
+//@   requires s != nil && stream != nil && resp != nil && !held(&s.lockW) && (s.authMode == auth.NoneAuth || (s.user != nil && permits(s.user, s.path, auth.PullRight)))
+//@   modifies s.consumer, s.logger, misc(s), held(&s.lockW), out(s.conn), ghostInt(s.conn, "flushed"), ghostInt(s.conn, "flushes"), out(s.wsconn), ghostInt(s.wsconn, "wsmessages")
+//@   ensures !held(&s.lockW) && (err == nil ==> sent(s) == old(sent(s)) + 1) && sent(s) <= old(sent(s)) + 1 && sent(s) >= old(sent(s))
+//@ func (s *Session) asMulticastConsumer(stream *media.Stream, resp *Response) (err error)
+//@   trusted
+//@   requires s != nil && stream != nil && resp != nil && !held(&s.lockW) && (s.authMode == auth.NoneAuth || (s.user != nil && permits(s.user, s.path, auth.PullRight)))
+//@   modifies s.consumer, s.logger, misc(s), held(&s.lockW), out(s.conn), ghostInt(s.conn, "flushed"), ghostInt(s.conn, "flushes"), out(s.wsconn), ghostInt(s.wsconn, "wsmessages")
+//@   ensures !held(&s.lockW) && (err == nil ==> sent(s) == old(sent(s)) + 1) && sent(s) <= old(sent(s)) + 1 && sent(s) >= old(sent(s))
+
+// RECORD: only a session set up for recording over TCP, with push rights, starts publishing; otherwise 455 / 403, no change
+//@ func (s *Session) onRecord(resp *Response, req *Request) ()
+//@   requires sessOK(s) && resp != nil && req != nil
+//@   modifies resp.StatusCode, s.status, s.stream, s.logger, misc(s)
+//@   ensures old(s.status) != statusRecording && (s.mode != RecordSession || s.transport.Type != RTPTCPUnicast) ==> resp.StatusCode == StatusMethodNotValidInThisState && s.status == old(s.status) && s.stream == old(s.stream)
+//@   ensures s.status == statusRecording && old(s.status) != statusRecording ==> s.mode == RecordSession && s.transport.Type == RTPTCPUnicast && (s.authMode == auth.NoneAuth || (s.user != nil && permits(s.user, s.path, auth.PushRight)))
+//@   ensures s.status == old(s.status) || s.status == statusRecording
+//@   ensures old(s.status) != statusRecording && s.mode == RecordSession && s.transport.Type == RTPTCPUnicast && !(s.authMode == auth.NoneAuth || (s.user != nil && permits(s.user, s.path, auth.PushRight))) ==> resp.StatusCode == StatusForbidden && s.status == old(s.status) && s.stream == old(s.stream)
+
+// PLAY: always answered exactly once; media is attached only for a play session with a transport and pull rights
+//@ func (s *Session) onPlay(resp *Response, req *Request) (err error)
+//@   requires sessOK(s) && resp != nil && req != nil && resp.Header != nil && req.Header != nil
+//@   modifies resp.StatusCode, s.status, s.consumer, s.logger, misc(s), misc(resp.Header), held(&s.lockW), out(s.conn), ghostInt(s.conn, "flushed"), ghostInt(s.conn, "flushes"), out(s.wsconn), ghostInt(s.wsconn, "wsmessages"), all()
+//@   assert[call:response] old(s.status) != statusPlaying && (s.mode != PlaySession || s.transport.Type == RTPUnknownTrans) ==> resp.StatusCode == StatusMethodNotValidInThisState
+//@   ensures err == nil ==> sent(s) == old(sent(s)) + 1
+//@   ensures sent(s) <= old(sent(s)) + 1
+//@   ensures s.status == old(s.status) || (s.status == statusPlaying && s.mode == PlaySession && s.transport.Type != RTPUnknownTrans)
+//@   ensures old(s.status) != statusPlaying && (s.mode != PlaySession || s.transport.Type == RTPUnknownTrans) ==> s.status == old(s.status) && s.consumer == old(s.consumer)
+
+//@ extern func (e error) Error() (s string)
+//@   modifies
+//@ func (s *Session) newResponse(code int, req *Request) (resp *Response)
+//@   trusted
+//@   requires s != nil && req != nil
+//@   modifies
+//@   fresh resp
+//@   ensures resp != nil && resp.StatusCode == code && resp.Header != nil && resp.Request == req
+//@ func (s *Session) onDescribe(resp *Response, req *Request) ()
+//@   trusted
+//@   requires s != nil && resp != nil && req != nil
+//@   modifies resp.StatusCode, resp.Status, resp.Body, misc(resp.Header), s.status, s.mode, s.url, s.path, s.rawSdp, s.sdp, s.aControl, s.vControl, s.aCodec, s.vCodec, misc(s)
+//@   ensures s.status == old(s.status)
+//@ func (s *Session) onAnnounce(resp *Response, req *Request) ()
+//@   trusted
+//@   requires s != nil && resp != nil && req != nil
+//@   modifies resp.StatusCode, resp.Status, misc(resp.Header), s.status, s.mode, s.url, s.path, s.rawSdp, s.sdp, s.aControl, s.vControl, s.aCodec, s.vCodec, misc(s)
+//@   ensures s.status == old(s.status)
+//@ func (s *Session) onSetup(resp *Response, req *Request) ()
+//@   trusted
+//@   requires s != nil && resp != nil && req != nil
+//@   modifies resp.StatusCode, resp.Status, misc(resp.Header), s.status, s.transport, misc(s)
+//@   ensures s.status == old(s.status) || (old(s.status) == statusInit && s.status == statusReady)
+
+// the method-order check: a method that is not legal in the current state is answered 455 here, before any
+// authentication or handler runs, and nothing of the session changes; OPTIONS and TEARDOWN are always answered
+//@ func (s *Session) onPreprocess(resp *Response, req *Request) (continueProcess bool, err error)
+//@   requires sessOK(s) && resp != nil && req != nil && resp.Header != nil
+//@   modifies resp.StatusCode, resp.Status, misc(resp.Header), s.user, s.closed, misc(s), s.status, held(&s.lockW), out(s.conn), ghostInt(s.conn, "flushed"), ghostInt(s.conn, "flushes"), out(s.wsconn), ghostInt(s.wsconn, "wsmessages")
+//@   assert[call:response] !legalRFC(s.status, req.Method) ==> resp.StatusCode == StatusMethodNotValidInThisState || resp.StatusCode == StatusUnauthorized
+//@   ensures !held(&s.lockW)
+//@   ensures continueProcess ==> sent(s) == old(sent(s)) && err == nil && s.status == old(s.status) && resp.StatusCode == old(resp.StatusCode) && sessOK(s)
+//@   ensures continueProcess ==> req.Method != MethodOptions && req.Method != MethodTeardown && (old(s.status) == statusReady ==> req.Method == MethodSetup || req.Method == MethodPlay || req.Method == MethodRecord) && (old(s.status) == statusPlaying ==> req.Method == MethodPlay) && (old(s.status) == statusRecording ==> req.Method == MethodRecord) && (old(s.status) == statusInit ==> req.Method != MethodPlay && req.Method != MethodRecord)
+//@   ensures !continueProcess && err == nil ==> sent(s) == old(sent(s)) + 1
+//@   ensures sent(s) <= old(sent(s)) + 1
+//@   ensures !legalRFC(old(s.status), req.Method) && !continueProcess ==> s.status == old(s.status) && s.user == old(s.user) && s.closed == old(s.closed)
+
+// one response per request: every path through the dispatcher answers exactly once (unless the write itself fails)
+//@ func (s *Session) onRequest(req *Request) (err error)
+//@   requires sessOK(s) && req != nil && req.Header != nil
+//@   modifies all()
+//@   local resp *Response
+//@   assert[call:response] !old(legalRFC(s.status, req.Method)) ==> resp.StatusCode == StatusMethodNotValidInThisState
+//@   ensures err == nil ==> sent(s) == old(sent(s)) + 1
+//@   ensures sent(s) <= old(sent(s)) + 1
+//@   ensures !old(legalRFC(s.status, req.Method)) ==> s.status == old(s.status)
+//@   ensures !old(legalRFC(s.status, req.Method)) ==> s.mode == old(s.mode)
+//@   ensures !old(legalRFC(s.status, req.Method)) ==> s.transport.Type == old(s.transport.Type)
+//@   ensures !old(legalRFC(s.status, req.Method)) ==> s.consumer == old(s.consumer)
+//@   ensures !old(legalRFC(s.status, req.Method)) ==> s.stream == old(s.stream)
